@@ -40,7 +40,21 @@ def cases(tier, seed):
 def body_factory(tier, seed):
     def body(rep, support_ok):
         terms, meta = [], []
-        for (version, action, req, resp) in cases(tier, seed):
+        import contextlib
+        import decimal
+        from harness.props import c14
+        all_cases = list(cases(tier, seed))
+        # the relay inside an application that has set the decimal context for its own arithmetic (low precision): what the
+        # library handed out as exact decimals it also takes back and writes with the same digits
+        for (mtype, action, path) in c14.POSITIONS:
+            base = c14.base_payload(mtype, action)
+            g0 = GD.Gen("quick", 0)
+            other = [i for i in g0.instances("1.6", action, "resp" if mtype == "Call" else "req") if not i[2] and isinstance(i[1], dict)][0][1]
+            for x in (100000.0, 250000.5, 21.4):
+                p = c14.set_at(base, path, x)
+                all_cases.append(("1.6", action, p, other, {"prec": 6}) if mtype == "Call" else ("1.6", action, other, p, {"prec": 6}))
+        for case in all_cases:
+            (version, action, req, resp), ctx = case[:4], (case[4] if len(case) > 4 else None)
             sreq, sresp = GD.snake(req), GD.snake(resp)
             try:
                 obj = N.make_request(version, action, sreq, False)
@@ -49,9 +63,10 @@ def body_factory(tier, seed):
                               "the keywords a handler receives for a schema-valid %s request cannot be put into call.%s: %s" % (action, action, e),
                               {"kind": "relay", "version": version, "action": action, "request": req, "response": resp})
                 continue
-            res = N.run_relay(version, action, obj, lambda kw, _v=version, _a=action, _s=sresp: N.make_result(_v, _a, _s, False))
-            rep.count(json.dumps([version, action, req, resp], default=repr, sort_keys=True))
-            replay = {"kind": "relay", "version": version, "action": action, "request": req, "response": resp,
+            with (decimal.localcontext(decimal.Context(**ctx)) if ctx else contextlib.nullcontext()):
+                res = N.run_relay(version, action, obj, lambda kw, _v=version, _a=action, _s=sresp: N.make_result(_v, _a, _s, False))
+            rep.count(json.dumps([version, action, req, resp, ctx], default=repr, sort_keys=True))
+            replay = {"kind": "relay", "version": version, "action": action, "request": req, "response": resp, "decimal_context": ctx,
                       "observation": {h: {k: (v if k != "outcome" else (v[:3] if v else v)) for k, v in res[h].items()} for h in ("hop1", "hop2")}}
             bad = []
             h1, h2 = res["hop1"], res["hop2"]
@@ -73,7 +88,9 @@ def body_factory(tier, seed):
             elif h1["reply"] is not None and h2["reply"] is not None and not O.same_value(json.loads(h1["reply"])[2], json.loads(h2["reply"])[2]):
                 bad.append(("reply-changed", "the CALLRESULT to the first caller differs from the third endpoint's"))
             for key, what in bad:
-                rep.violation("C19:%s:%s:%s" % (key, version, action), what, replay)
+                rep.violation("C19:%s:%s:%s%s" % (key, version, action, ":application-decimal-context" if ctx else ""), what, replay)
+            if ctx:
+                continue            # the model has no application context: these exchanges are judged by the oracles above
             try:
                 import dataclasses
                 terms.append("mkRL %s (HRet %s) %s %s %s %s" % (
@@ -121,7 +138,10 @@ def replay(d):
         return c04.replay_cold(d)
     sreq, sresp = GD.snake(d["request"]), GD.snake(d["response"])
     obj = N.make_request(d["version"], d["action"], sreq, False)
-    res = N.run_relay(d["version"], d["action"], obj, lambda kw: N.make_result(d["version"], d["action"], sresp, False))
+    import contextlib
+    import decimal
+    with (decimal.localcontext(decimal.Context(**d["decimal_context"])) if d.get("decimal_context") else contextlib.nullcontext()):
+        res = N.run_relay(d["version"], d["action"], obj, lambda kw: N.make_result(d["version"], d["action"], sresp, False))
     print({h: {k: (v if k != "outcome" else (v[:3] if v else v)) for k, v in res[h].items()} for h in ("hop1", "hop2")})
     ok = res["hop1"]["outcome"][0] == "result" and O.same_value(res["hop1"]["outcome"][1], sresp) and res["hop2"]["call"] is not None \
         and O.same_value(json.loads(res["hop2"]["call"])[3], json.loads(res["hop1"]["call"])[3])
